@@ -71,6 +71,40 @@ M = [
  ("c20-grow-realloc", "C20", "message.go", "if cap(m.Raw) >= n {\n\t\tm.Raw = m.Raw[:n]\n\n\t\treturn\n\t}", ""),
  ("c20-decode-attrs-nil", "C20", "message.go", "m.Attributes = m.Attributes[:0]\n\tvar (", "m.Attributes = nil\n\tvar ("),
  ("c20-hmac-sum-nil", "C20", "internal/hmac/pool.go", "key = h.outer.Sum(h.opad[:0])", "key = h.outer.Sum(nil)"),
+ # C10
+ ("c10-no-once-guard", "C10", "client.go", "if atomic.AddInt32(&t.calls, 1) == 1 {", "if atomic.AddInt32(&t.calls, 1) >= 1 {"),
+ ("c10-f5-revert", "C10", "client.go", "\tif closed {\n\t\t// The client is closing", "\tif closed {\n\t\treturn\n\t}\n\tif closed {\n\t\t// The client is closing"),
+ ("c10-maxattempts-lt", "C10", "client.go", "if atomic.LoadInt32(&c.maxAttempts) <= transaction.attempt || event.Error == nil {", "if atomic.LoadInt32(&c.maxAttempts) < transaction.attempt || event.Error == nil {"),
+ ("c10-f10-revert", "C10", "client.go", "\t\tif !c.delete(id) {\n\t\t\t// A response (or Close) completed", "\t\tif c.delete(id); false {\n\t\t\t// A response (or Close) completed"),
+ ("c10-start-err-keeps-tx", "C10", "client.go", "\t\tif !c.delete(msg.TransactionID) {", "\t\tif false {"),
+ # C11
+ ("c11-f6-revert", "C11", "client.go", "buff.buf = append(buff.buf[:0], transaction.raw...)", "buff.buf = buff.buf[:copy(buff.buf[:cap(buff.buf)], transaction.raw)]"),
+ ("c11-backoff-plus2", "C11", "client.go", "return now.Add(time.Duration(t.attempt+1) * t.rto)", "return now.Add(time.Duration(t.attempt+2) * t.rto)"),
+ ("c11-raw-alias", "C11", "client.go", "t.raw = append(t.raw[:0], msg.Raw...)", "t.raw = msg.Raw"),
+ ("c11-rto-read-late", "C11", "client.go", "timeOut = transaction.nextTimeout(now)", "timeOut = now.Add(time.Duration(transaction.attempt+1) * time.Duration(atomic.LoadInt64(&c.rto)))"),
+ ("c11-collect-not-after", "C11", "agent.go", "if t.deadline.Before(gcTime) {", "if !t.deadline.After(gcTime) {"),
+ # C12
+ ("c12-fallback-for-matched", "C12", "client.go", "\tif !found {\n\t\tif c.handler != nil && !errors.Is(event.Error, ErrTransactionStopped) {", "\tif c.handler != nil && found && event.Error == nil {\n\t\tc.handler(event)\n\t}\n\tif !found {\n\t\tif c.handler != nil && !errors.Is(event.Error, ErrTransactionStopped) {"),
+ ("c12-calls-not-reset", "C12", "client.go", "\t\tt.calls = 0\n", "\n"),
+ ("c12-process-stale-id", "C12", "agent.go", "event := Event{\n\t\tTransactionID: m.TransactionID,\n\t\tMessage:       m,\n\t}\n\ta.mux.Lock()", "event := Event{\n\t\tMessage: m,\n\t}\n\tcopy(event.TransactionID[:11], m.TransactionID[:11])\n\ta.mux.Lock()"),
+ # C15
+ ("c15-second-close-nil", "C15", "client.go", "\tif c.closed {\n\t\tc.mux.Unlock()\n\n\t\treturn ErrClientClosed\n\t}\n\tc.closed = true", "\tif c.closed {\n\t\tc.mux.Unlock()\n\n\t\treturn nil\n\t}\n\tc.closed = true"),
+ ("c15-no-wg-wait", "C15", "client.go", "\tclose(c.close)\n\tc.wg.Wait()", "\tclose(c.close)"),
+ ("c15-closeconn-ignored", "C15", "client.go", "\tif c.closeConn {\n\t\tconnErr = c.c.Close()", "\tif c.closeConn || agentErr != nil {\n\t\tconnErr = c.c.Close()"),
+ ("c15-closeerr-drops-conn", "C15", "client.go", "\treturn CloseErr{\n\t\tAgentErr:      agentErr,\n\t\tConnectionErr: connErr,\n\t}", "\treturn CloseErr{\n\t\tAgentErr:      agentErr,\n\t\tConnectionErr: agentErr,\n\t}"),
+ # C17
+ ("c17-default-port-swapped", "C17", "uri.go", "defaultPort := DefaultPort\n\t\tif uri.Scheme == SchemeTypeSTUNS || uri.Scheme == SchemeTypeTURNS {", "defaultPort := DefaultPort\n\t\tif uri.Scheme == SchemeTypeSTUNS || uri.Scheme == SchemeTypeTURN {"),
+ ("c17-string-no-brackets", "C17", "uri.go", "rawURL := u.Scheme.String() + \":\" + net.JoinHostPort(u.Host, strconv.Itoa(u.Port))", "rawURL := u.Scheme.String() + \":\" + u.Host + \":\" + strconv.Itoa(u.Port)"),
+ ("c17-qargs-gt2", "C17", "uri.go", "if err != nil || len(qArgs) > 1 {", "if err != nil || len(qArgs) > 2 {"),
+ ("c17-turns-udp-plain", "C17", "client.go", "\tcase uri.Scheme == SchemeTypeTURN:", "\tcase uri.Scheme == SchemeTypeTURN || (uri.Scheme == SchemeTypeTURNS && uri.Proto == ProtoTypeUDP):"),
+ ("c17-port-upper-bound", "C17", "uri.go", "uri.Port < 0 || uri.Port > 65535", "uri.Port < 0 || uri.Port > 65536"),
+ ("c17-sni-missing", "C17", "client.go", "\t\ttlsCfg.ServerName = uri.Host\n", "\n"),
+ # C18
+ ("c18-marshaled-not-cleared", "C18", "internal/hmac/pool.go", "\th.marshaled = false\n", "\n"),
+ ("c18-pads-not-rezeroed", "C18", "internal/hmac/pool.go", "h.ipad = append(h.ipad[:0], make([]byte, blocksize)...)\n\th.opad = append(h.opad[:0], make([]byte, blocksize)...)", "h.ipad = append(h.ipad[:0], h.ipad[:blocksize]...)\n\th.opad = append(h.opad[:0], h.opad[:blocksize]...)"),
+ ("c18-no-inner-reset", "C18", "internal/hmac/pool.go", "\th.outer.Reset()\n\th.inner.Reset()\n\tblocksize", "\th.outer.Reset()\n\tblocksize"),
+ # C20 (replacement for the equivalent grow mutant)
+ ("c20-xor-getter-allocs-ip", "C20", "xoraddr.go", "\ta.IP = a.IP[:ipLen]\n\tfor i := range a.IP {\n\t\ta.IP[i] = 0\n\t}\n\tif err := CheckOverflow", "\ta.IP = make(net.IP, ipLen)\n\tif err := CheckOverflow"),
 ]
 
 def sh(cmd, cwd=None, timeout=3600):
